@@ -91,7 +91,15 @@ ShapeOps == [reshape   |-> [args |-> {"flat", "minus1", "tuple32"}, sp |-> {"mg"
              concatenate |-> [args |-> {"ax0", "axm1"}, sp |-> {"mg", "np"}],
              stack     |-> [args |-> {"ax0", "axm1"}, sp |-> {"mg", "np"}],
              where     |-> [args |-> {"mask"}, sp |-> {"mg", "np"}],
-             einsum    |-> [args |-> {"matvec", "trace", "outer"}, sp |-> {"mg", "np"}]]
+             einsum    |-> [args |-> {"matvec", "trace", "outer"}, sp |-> {"mg", "np"}],
+             atleast_1d |-> [args |-> {"from0d"}, sp |-> {"mg", "np"}],
+             atleast_2d |-> [args |-> {"from0d", "from1d"}, sp |-> {"mg", "np"}],
+             atleast_3d |-> [args |-> {"from0d", "from1d", "from2d"}, sp |-> {"mg", "np"}],
+             norm      |-> [args |-> {"vec2", "vec1", "axis0", "axism1_keepdims"}, sp |-> {"mg", "np"}],
+             \* creation from a prototype: the NumPy function applied to a tensor is MyGrad's own routine (a Tensor comes back)
+             zeros_like |-> [args |-> {"proto"}, sp |-> {"mg", "np"}],
+             ones_like  |-> [args |-> {"proto"}, sp |-> {"mg", "np"}],
+             full_like  |-> [args |-> {"proto"}, sp |-> {"mg", "np"}]]
 \* the `T` property and the no-axes transpose only coincide without arguments
 ShapeSpellings(f, a) == IF f = "transpose" /\ a # "none" THEN ShapeOps[f].sp \ {"T"} ELSE ShapeOps[f].sp
 ShapeCells == {[group |-> "shape", f |-> f, arg |-> a, operand |-> o, spellings |-> ShapeSpellings(f, a), kind |-> "tensor"] :
@@ -103,6 +111,8 @@ BoolU  == {"equal", "not_equal", "greater", "greater_equal", "less", "less_equal
            "signbit", "logical_not", "logical_and", "logical_or", "logical_xor"}
 ConstU == {"floor_divide", "remainder", "mod", "fmod", "rint", "sign", "floor", "ceil", "trunc"}
 NoDiffF == {"allclose", "isclose", "shape", "shares_memory", "may_share_memory", "result_type"}
+\* non-differentiable functions of ONE tensor: a plain array / scalar / dtype comes back
+NoDiffUnary == {"any", "argmax", "argmin", "min_scalar_type", "bincount"}
 UnaryOnly == {"isnan", "isfinite", "isinf", "signbit", "logical_not", "rint", "sign", "floor", "ceil", "trunc"}
 \* operand combinations for the const-only family; `out` = a tensor passed as out=
 ConstOperands == {<<"v">>, <<"c">>, <<"v", "c">>, <<"c", "v">>, <<"c", "c">>, <<"a", "v">>, <<"c", "a">>, <<"s", "v">>,
@@ -118,6 +128,11 @@ NonDiffCells ==
                      Cardinality({i \in 1..Len(x) : x[i] \notin {"out:v", "out:c"}}) = Arity(f)}} : f \in ConstU}
   \cup {[group |-> "nodiff", f |-> f, operands |-> o, spellings |-> {"np"}, kind |-> "ndarray"] :
      f \in NoDiffF, o \in {<<"v", "v">>, <<"v", "a">>}}
+  \cup {[group |-> "nodiff1", f |-> f, operands |-> o, spellings |-> {"np"}, kind |-> "ndarray"] :
+     f \in NoDiffUnary, o \in {<<"v">>, <<"c">>}}
+  \* divmod belongs to the refusing family (two outputs)
+  \cup {[group |-> "constufunc", f |-> "divmod", operands |-> o, spellings |-> {"np"}, kind |-> ConstKind(o)] :
+     o \in {<<"v", "c">>, <<"c", "v">>, <<"c", "c">>, <<"a", "v">>, <<"c", "a">>, <<"s", "v">>}}
 
 Cells == BinCells \cup UnCells \cup MatCells \cup RedCells \cup ShapeCellsOK \cup NonDiffCells
 
